@@ -441,3 +441,10 @@ N.append({'id': 'cxx-compose-node-built-in-place', 'file': 'src/treespec/treespe
                     (node.num_nodes - node.num_leaves) + (node.num_leaves * num_inner_nodes),
                 .original_keys = node.original_keys,
             });""")]})
+
+# Python: explaining variables - every `return f(g(x))` becomes `tmp = g(x); out = f(tmp); return out`
+# (118 returns).  The first run raised alarms in T4, F2, F6, F7, F11, F12, N6, R3, DC4 and analysis
+# errors in N3, N4, DC1: every rule that reads the shape of a return.  The Python front end now
+# inlines a name that is bound once and read once in the next statement (as the whole return value
+# or a direct argument of its call) - `py_frontend.inline_explaining_variables`.
+N.append({'id': 'py-explaining-variables', 'generator': 'py-temps', 'file': None, 'edits': []})
